@@ -50,6 +50,47 @@ def r0b(src):  # GOROOT/src/runtime/proc.go: sysmon's forced pre-emption after 1
     return src.replace(old, "const forcePreemptNS = 2 * 1000 * 1000 * 1000 // 2s (verif overlay R0b)"), src.count(old), 1
 
 
+def r0c(src):  # GOROOT/src/runtime/sema.go: sync.Mutex measures a waiter's starvation on the bubble clock
+    # sync.Mutex switches to starvation mode (direct hand-off, the unlocker yields) when a waiter
+    # has waited for more than 1 ms of REAL time; inside a bubble a goroutine blocked on a mutex
+    # whose holder is durably blocked waits for as long as the controller's steps take on this
+    # machine today. With the bubble clock the decision is a function of simulated time only.
+    old = "func internal_sync_nanotime() int64 {\n\treturn nanotime()\n}"
+    new = "func internal_sync_nanotime() int64 {\n\tif gp := getg(); gp.bubble != nil {\n\t\treturn gp.bubble.now\n\t}\n\treturn nanotime()\n}"
+    return src.replace(old, new), src.count(old), 1
+
+
+R0D_TAIL = '''
+// verifSelSeq: see verifTimerRand (runtime/time.go overlay). Inside a synctest bubble the order in
+// which select polls its cases is a function of (sequence number, salt) owned by the harness;
+// salt 0 means source order.
+//
+//go:linkname verifSelSeq
+var verifSelSeq uint32
+
+func verifSelectRandn(n uint32) uint32 {
+	if getg().bubble == nil {
+		return cheaprandn(n)
+	}
+	if verifTimerSalt == 0 {
+		return n - 1
+	}
+	verifSelSeq++
+	x := verifSelSeq ^ verifTimerSalt ^ 0x5bd1e995
+	x *= 0x9e3779b1
+	x ^= x >> 15
+	x *= 0x85ebca77
+	x ^= x >> 13
+	return uint32((uint64(x) * uint64(n)) >> 32)
+}
+'''
+
+
+def r0d(src):  # GOROOT/src/runtime/select.go: poll order of select cases owned by the kernel inside a bubble
+    old = "\t\tj := cheaprandn(uint32(norder + 1))\n"
+    return src.replace(old, "\t\tj := verifSelectRandn(uint32(norder + 1))\n") + R0D_TAIL, src.count(old), 1
+
+
 def r1(src):  # h2/h2.go: tls.Dial -> verifDial (falls back to tls.Dial when VerifDial is nil)
     n = src.count("tls.Dial(")
     return src.replace("tls.Dial(", "verifDial("), n, 1
@@ -133,6 +174,7 @@ REWRITES = [
     ("R7", "trafficshape/conn.go", r7),
     ("R8", "multierror.go", lock_yield("multierror")),
     ("R8", "proxy.go", lock_yield("proxy")),
+    ("R8", "h2/relay.go", lock_yield("h2")),
     ("R8", "har/har.go", lock_yield("har")),
     ("R8", "martianhttp/martianhttp.go", lock_yield("martianhttp")),
     ("R8", "fifo/fifo_group.go", lock_yield("fifo")),
@@ -184,6 +226,15 @@ def main():
         dst = os.path.join(outdir, "goroot__runtime__proc.go")
         open(dst, "w").write(new)
         replace[path] = dst
+        for rid, fname, fn in (("R0c", "sema.go", r0c), ("R0d", "select.go", r0d)):
+            path = os.path.join(goroot, "src", "runtime", fname)
+            new, n, want = fn(open(path).read())
+            if n != want:
+                sys.stderr.write("instrument: %s matched %d sites in %s, expected %d\n" % (rid, n, path, want))
+                sys.exit(2)
+            dst = os.path.join(outdir, "goroot__runtime__" + fname)
+            open(dst, "w").write(new)
+            replace[path] = dst
     ov = os.path.join(outdir, "overlay.json")
     json.dump({"Replace": replace}, open(ov, "w"))
     print(ov)
